@@ -1055,3 +1055,37 @@ Proof.
   destruct (Add.cmp_rev (rev (firstn l left)) (rev (firstn l right))); try reflexivity.
   f_equal. apply Nat2Z.inj_compare.
 Qed.
+
+(* ---------- addmul_n: assert_eq! on the lengths, dispatch on the length ---------- *)
+Lemma g_addmul_n_eq lhs a b :
+  Forall inW lhs -> Forall inW a -> Forall inW b -> g_addmul_n lhs a b = Limbs.addmul_n lhs a b.
+Proof.
+  intros Hl Ha Hb. unfold g_addmul_n, Limbs.addmul_n. rewrite !lenZ_eqb.
+  destruct (Nat.eqb_spec (length lhs) (length a)) as [Ela|Ela]; cbn [negb orb]; [|reflexivity].
+  destruct (Nat.eqb_spec (length lhs) (length b)) as [Elb|Elb]; cbn [negb]; [|reflexivity].
+  unfold lenZ.
+  destruct lhs as [|l0 [|l1 [|l2 [|l3 [|l4 lhs]]]]];
+    destruct a as [|a0 [|a1 [|a2 [|a3 [|a4 a]]]]]; cbn [length] in Ela; try lia;
+    destruct b as [|b0 [|b1 [|b2 [|b3 [|b4 b]]]]]; cbn [length] in Elb; try lia.
+  - reflexivity.
+  - inversion Hl; inversion Ha; inversion Hb; subst.
+    change (Z.of_nat (length [l0])) with 1. cbv iota.
+    rewrite g_addmul_1_eq by assumption. reflexivity.
+  - repeat match goal with H : Forall inW (_ :: _) |- _ => inversion H; clear H; subst end.
+    change (Z.of_nat (length [l0; l1])) with 2. cbv iota.
+    rewrite g_addmul_2_eq by assumption. reflexivity.
+  - repeat match goal with H : Forall inW (_ :: _) |- _ => inversion H; clear H; subst end.
+    change (Z.of_nat (length [l0; l1; l2])) with 3. cbv iota.
+    rewrite g_addmul_3_eq by assumption. reflexivity.
+  - repeat match goal with H : Forall inW (_ :: _) |- _ => inversion H; clear H; subst end.
+    change (Z.of_nat (length [l0; l1; l2; l3])) with 4. cbv iota.
+    rewrite g_addmul_4_eq by assumption. reflexivity.
+  - (* five or more limbs: the generic kernel (model function) *)
+    remember (Z.of_nat (length (l0 :: l1 :: l2 :: l3 :: l4 :: lhs))) as z eqn:Ez.
+    assert (Hz : 5 <= z) by (subst z; cbn [length]; lia). clear Ez.
+    cbn [length].
+    destruct (Limbs.addmul (l0 :: l1 :: l2 :: l3 :: l4 :: lhs) (a0 :: a1 :: a2 :: a3 :: a4 :: a)
+                (b0 :: b1 :: b2 :: b3 :: b4 :: b)) as [r o]. cbn [fst].
+    destruct z as [|p|p]; try lia.
+    destruct p as [[[p|p|]|[p|p|]|]|[[p|p|]|[p|p|]|]|]; try lia; reflexivity.
+Qed.
